@@ -38,6 +38,7 @@ let run () =
       let line = input_line stdin in
       match String.split_on_char ' ' line with
       | [id; "KR"; t; a] -> Printf.printf "%s %s back=true\n" id (hx (rank_key (z_of_string t) (bz a)))
+      | [id; "KM"; a; i] -> Printf.printf "%s %s\n" id (hx (missed_key (bz a) (z_of_string i)))
       | [id; "KO"; t1; a1; t2; a2] ->
         Printf.printf "%s %s\n" id (cmp_s (bcompare (rank_key (z_of_string t1) (bz a1)) (rank_key (z_of_string t2) (bz a2))))
       | id :: "KT" :: y :: mo :: d :: h :: mi :: s :: ns :: rest ->
